@@ -183,39 +183,41 @@ impl ValidatorSync for KeepSortedValidator {
                         };
 
                         if let Some((curr_val, curr_range)) = value {
-                            if let Some((prev_val, _prev_range)) = &prev_value {
-                                let cmp =
-                                    sort_format.cmp(prev_val, curr_val).with_context(|| {
-                                        format!(
-                                            "in block {}:{} defined at line {}",
-                                            file_path.display(),
-                                            block_with_context.block.name_display(),
-                                            block_with_context
-                                                .block
-                                                .start_tag_position_range
-                                                .start()
-                                                .line,
-                                        )
-                                    })?;
-                                if cmp == violating_ord {
-                                    let (violation_line_number, character_offset) =
-                                        block_with_context.block.content_line_position(line_number);
-                                    let line_character_start =
-                                        *curr_range.start() + character_offset;
-                                    let line_character_end = *curr_range.end() + character_offset;
-                                    violations
-                                        .entry(file_path.clone())
-                                        .or_insert_with(Vec::new)
-                                        .push(create_violation(
-                                            file_path,
-                                            &block_with_context.block,
-                                            keep_sorted_normalized.as_str(),
-                                            violation_line_number,
-                                            line_character_start,
-                                            line_character_end,
-                                        )?);
-                                    break;
-                                }
+                            // The first key is compared with itself, so that every key is checked
+                            // against the sort format.
+                            let prev_val = match &prev_value {
+                                Some((prev_val, _prev_range)) => *prev_val,
+                                None => curr_val,
+                            };
+                            let cmp = sort_format.cmp(prev_val, curr_val).with_context(|| {
+                                format!(
+                                    "in block {}:{} defined at line {}",
+                                    file_path.display(),
+                                    block_with_context.block.name_display(),
+                                    block_with_context
+                                        .block
+                                        .start_tag_position_range
+                                        .start()
+                                        .line,
+                                )
+                            })?;
+                            if cmp == violating_ord {
+                                let (violation_line_number, character_offset) =
+                                    block_with_context.block.content_line_position(line_number);
+                                let line_character_start = *curr_range.start() + character_offset;
+                                let line_character_end = *curr_range.end() + character_offset;
+                                violations
+                                    .entry(file_path.clone())
+                                    .or_insert_with(Vec::new)
+                                    .push(create_violation(
+                                        file_path,
+                                        &block_with_context.block,
+                                        keep_sorted_normalized.as_str(),
+                                        violation_line_number,
+                                        line_character_start,
+                                        line_character_end,
+                                    )?);
+                                break;
                             }
                             prev_value = Some((curr_val, curr_range));
                         }
